@@ -35,6 +35,8 @@ type histGen struct {
 	TAM                                                                           []uint16
 	MaxPkt                                                                        []uint32
 	MultiFilter                                                                   bool // several filters per SUBSCRIBE
+	InitAll                                                                       bool // every client connects at the start (otherwise each is skipped with probability 1/5)
+	RetainBias                                                                    int  // 0: retain drawn 50/50; n>0: retain with probability n/(n+1)
 }
 
 var stdTopics = []string{"a", "b", "a/b", "a/a", "b/a", "a/b/c", "a/b/a", "$x/a", "a/", "/a"}
@@ -102,6 +104,9 @@ func (g *histGen) publish(rt *rapid.T, client int) hist.Action {
 	a := hist.Action{Kind: "publish", Client: client, Topic: pick(rt, "topic", g.Topics), QoS: pick(rt, "pubqos", g.PubQoS), Rich: g.Rich && rapid.Bool().Draw(rt, "rich")}
 	if g.Retain {
 		a.Retain = rapid.Bool().Draw(rt, "retain")
+		if g.RetainBias > 0 {
+			a.Retain = rapid.IntRange(0, g.RetainBias).Draw(rt, "retainb") != 0
+		}
 		if a.Retain && g.EmptyPayload {
 			a.Empty = rapid.IntRange(0, 3).Draw(rt, "empty") == 0
 		}
@@ -118,7 +123,7 @@ func (g *histGen) Draw(rt *rapid.T) *hist.Case {
 		versions[i] = pick(rt, "version", g.Versions)
 	}
 	for i := 0; i < g.NClients; i++ {
-		if rapid.IntRange(0, 4).Draw(rt, "skipinit") != 1 {
+		if g.InitAll || rapid.IntRange(0, 4).Draw(rt, "skipinit") != 1 {
 			c.Actions = append(c.Actions, g.connect(rt, i, versions[i]))
 		}
 	}
@@ -193,7 +198,13 @@ func firstLines(s string, n int) string {
 // withTranscript appends the executed history to the first discrepancy so that failure reports are self-contained.
 func withTranscript(ds []evid.Disc, run *hist.Run) []evid.Disc {
 	if len(ds) > 0 {
-		ds[0].Msg += "\n--- history ---\n" + run.Transcript()
+		ctx := "--- history ---\n" + run.Transcript()
+		for i := range ds {
+			ds[i].Ctx = ctx
+		}
 	}
 	return ds
 }
+
+// caseKey identifies a generated history (used to count distinct non-trivial cases).
+func caseKey(c *hist.Case) string { return strings.Join(c.Summary(), ";") }
